@@ -2,7 +2,7 @@
    k = K - 6; B k = 2^(2^K); val is the integer a limb tree denotes; wf = every limb in [0, 2^64);
    thr = __RECINT_THRESHOLD_KARA - 6 (every theorem holds for every threshold). *)
 From Coq Require Import ZArith.
-From C06 Require Import Model ProofsBase ProofsRepr ProofsAdd ProofsBits ProofsShift ProofsMul ProofsKara ProofsMulTop ProofsSubW ProofsDiv ProofsDivTop ProofsDivFinal ProofsModn ProofsSquare ProofsExp ProofsArazi ProofsProps.
+From C06 Require Import Model ProofsBase ProofsRepr ProofsAdd ProofsBits ProofsShift ProofsMul ProofsKara ProofsMulTop ProofsSubW ProofsDiv ProofsDivTop ProofsDivFinal ProofsModn ProofsSquare ProofsExp ProofsArazi ProofsGcd ProofsInvMod ProofsBezout ProofsSigned ProofsMisc ProofsProps.
 Local Open Scope Z_scope.
 
 Theorem C06_representation : Repr_exact.            Proof. exact repr_exact. Qed.
@@ -75,3 +75,31 @@ Theorem C06_exp_mod_word_exponent_exact : Exp_mod_word_exact. Proof. exact exp_m
 Print Assumptions C06_exp_mod_word_exponent_exact.
 Theorem C06_inverse_mod_power_of_two_exact : Arazi_exact. Proof. exact arazi_exact. Qed.
 Print Assumptions C06_inverse_mod_power_of_two_exact.
+Theorem C06_gcd_exact : Gcd_exact.                  Proof. exact gcd_exact. Qed.
+Print Assumptions C06_gcd_exact.
+Theorem C06_inverse_modulo_exact : Inv_mod_exact.   Proof. exact inv_mod_exact. Qed.
+Print Assumptions C06_inverse_modulo_exact.
+Theorem C06_signed_compare_exact : Scmp_exact.      Proof. exact scmp_exact. Qed.
+Print Assumptions C06_signed_compare_exact.
+Theorem C06_signed_div_q_exact : Sdiv_q_exact.      Proof. exact sdiv_q_exact. Qed.
+Print Assumptions C06_signed_div_q_exact.
+Theorem C06_signed_div_r_exact : Sdiv_r_exact.      Proof. exact sdiv_r_exact. Qed.
+Print Assumptions C06_signed_div_r_exact.
+Theorem C06_signed_lmul_exact : Slmul_exact.        Proof. exact slmul_exact. Qed.
+Print Assumptions C06_signed_lmul_exact.
+Theorem C06_signed_lsquare_exact : Slsquare_exact.  Proof. exact slsquare_exact. Qed.
+Print Assumptions C06_signed_lsquare_exact.
+Theorem C06_sign_extension_exact : Sext_exact.      Proof. exact sext_exact. Qed.
+Print Assumptions C06_sign_extension_exact.
+Theorem C06_signed_shift_right_exact : Sshr_exact.  Proof. exact sshr_exact. Qed.
+Print Assumptions C06_signed_shift_right_exact.
+Theorem C06_rint_to_mpz_exact : Rint_to_mpz_exact.  Proof. exact rint_to_mpz_exact. Qed.
+Print Assumptions C06_rint_to_mpz_exact.
+Theorem C06_signed_ring_ops_exact : Signed_ring_ops_exact. Proof. exact signed_ring_ops_exact. Qed.
+Print Assumptions C06_signed_ring_ops_exact.
+Theorem C06_bezout_mod_exact : Bezout_mod_exact.    Proof. exact bezout_mod_exact. Qed.
+Print Assumptions C06_bezout_mod_exact.
+Theorem C06_lmul_word_exact : Lmul_word_exact.      Proof. exact lmul_word_exact. Qed.
+Print Assumptions C06_lmul_word_exact.
+Theorem C06_signed_mod_n_exact : Smod_n_exact.      Proof. exact smod_n_exact. Qed.
+Print Assumptions C06_signed_mod_n_exact.
